@@ -17,6 +17,9 @@ import operator
 from .loader import AnalysisError, src
 
 
+HERE = [None]   # (function, file, line) of the statement being interpreted: lets value classes say where something happened
+
+
 class Unsupported(AnalysisError):
     pass
 
@@ -121,6 +124,22 @@ class Obj:
         self.cls = cls
         self.fields = dict(fields)
 
+    # copy.copy / copy.deepcopy of an instance of a slotted repo class: a new instance with the same / recursively copied slot values
+    def __copy__(self):
+        if any(m in getattr(self.cls, "methods", {}) for m in ("__copy__", "__reduce__", "__getstate__")):
+            raise Unsupported(f"copy.copy of {self.cls.name}, which customises copying")
+        return Obj(self.cls, self.fields)
+
+    def __deepcopy__(self, memo):
+        import copy as _copy
+
+        if any(m in getattr(self.cls, "methods", {}) for m in ("__deepcopy__", "__reduce__", "__getstate__")):
+            raise Unsupported(f"copy.deepcopy of {self.cls.name}, which customises copying")
+        new = Obj(self.cls, {})
+        memo[id(self)] = new
+        new.fields = {k: _copy.deepcopy(v, memo) for k, v in self.fields.items()}
+        return new
+
 
 class Evaluator:
     def __init__(self, prog, isinstance_fn=None, max_steps=20000, stubs=None):
@@ -186,6 +205,13 @@ class Evaluator:
         return self._run_body(finfo, node, env)
 
     def _run_body(self, finfo, node, env):
+        here = HERE[0]
+        try:
+            return self._run_body_(finfo, node, env)
+        finally:
+            HERE[0] = here   # back in the caller's statement
+
+    def _run_body_(self, finfo, node, env):
         if self._is_generator(finfo):
             outer, self.yields = self.yields, []
             try:
@@ -216,6 +242,7 @@ class Evaluator:
             self.stmt(s, env, fi)
 
     def stmt(self, s, env, fi):
+        HERE[0] = (fi.fq, fi.module.relpath, s.lineno)
         if COVER is not None:
             COVER.add((fi.module.name, s.lineno))
         if TRACE is not None:
@@ -477,7 +504,7 @@ class Evaluator:
                 import collections
 
                 return getattr(collections, e.id)
-            if e.id in ("math", "operator", "functools"):
+            if e.id in ("math", "operator", "functools", "copy"):
                 import importlib
 
                 return importlib.import_module(e.id)
@@ -705,7 +732,7 @@ class Evaluator:
             def methodcaller(name, *a, _fi=fi, **k):
                 return lambda o: self.apply(self.getattr(o, name, _fi), list(a), k, _fi)
             return methodcaller
-        if isinstance(v, _types.ModuleType) and v.__name__ in ("math", "operator", "functools") and not attr.startswith("_"):
+        if isinstance(v, _types.ModuleType) and v.__name__ in ("math", "operator", "functools", "copy") and not attr.startswith("_"):
             return getattr(v, attr)
         if v is None or isinstance(v, (int, float, bool, str, tuple, list, dict, set, frozenset)):
             # what Python does: the interpreted code dereferenced a value that has no such attribute
